@@ -25,6 +25,16 @@ static Fields gen(Tape &t) {
   // recording manager only: the k-th allocation of the call fails once; success is then still held to the round trip
   f.seti("fault", t.chance(3, 4) ? 0 : t.range(1, 6));
   // ownership states of the operands: made owner (or normalised with a partial mask) before the call
+  // sharing between the operands: 1 = B is parsed from a prefix view of the very buffer S is parsed from (S = B + a few
+  // more characters), 2 = one and the same object is passed as source and as base
+  int shared = t.chance(9, 10) ? 0 : 1 + (int)t.below(2);
+  if (shared == 1) {
+    static const std::vector<std::string> more = {"0", "80", "x", "/y", ".org", "b/c", "?q", "1"};
+    std::string bt = B.text();
+    if (bt.find('#') == std::string::npos) { for (auto &kv : f.kv) if (kv.first == "src") kv.second = esc(bt + t.pick(more)); }  // src = base + suffix
+    else shared = 0;
+  } else if (shared == 2) { for (auto &kv : f.kv) if (kv.first == "src") kv.second = esc(B.text()); }
+  f.seti("shared", shared);
   f.seti("sown", t.chance(3, 4) ? 0 : 1);
   f.seti("bown", t.chance(5, 6) ? 0 : 1);
   return f;
@@ -58,12 +68,24 @@ static std::string &intact_error() { static std::string e; return e; }
 template <class A> static Verdict check_type(const Fields &f, bool *relativeBranch) {
   using Ch = typename A::Ch;
   Parsed<A> ps, pb;
+  int shared = (int)f.geti("shared");
   parse_via<A>(ps, PE_SINGLE_EX, widen<Ch>(f.get("src")));
-  parse_via<A>(pb, PE_SINGLE_EX, widen<Ch>(f.get("base")));
+  if (shared == 1 && f.get("src").compare(0, f.get("base").size(), f.get("base")) == 0) {
+    // B is a view of the first characters of S's buffer
+    const Ch *ep = nullptr;
+    pb.n = f.get("base").size();
+    memset(&pb.uri, 0xA5, sizeof pb.uri);
+    pb.rc = A::ParseSingleUriEx(&pb.uri, ps.first(), ps.first() + pb.n, &ep);
+    pb.live = true;
+  } else {
+    if (shared == 1) shared = 0;
+    parse_via<A>(pb, PE_SINGLE_EX, widen<Ch>(f.get("base")));
+  }
   if (ps.rc != 0 || pb.rc != 0) return Verdict::discard();
+  typename A::Uri *Bp = shared == 2 ? &ps.uri : &pb.uri;  // alias: the same object as source and base
   if (f.geti("sown")) VF_REQUIRE(A::MakeOwner(&ps.uri) == 0, "%s: uriMakeOwner(S) failed", A::name());
-  if (f.geti("bown")) VF_REQUIRE(A::MakeOwner(&pb.uri) == 0, "%s: uriMakeOwner(B) failed", A::name());
-  Snap S = snapshot<A>(ps.uri), B = snapshot<A>(pb.uri);
+  if (f.geti("bown")) VF_REQUIRE(A::MakeOwner(Bp) == 0, "%s: uriMakeOwner(B) failed", A::name());
+  Snap S = snapshot<A>(ps.uri), B = snapshot<A>(*Bp);
   // whatever happens below, S and B are the caller's: after the reference (and the way back) have been released they
   // must still be what they were, and releasing them afterwards must be clean (ASan: no use after free, no double free)
   struct Intact {
@@ -79,13 +101,13 @@ template <class A> static Verdict check_type(const Fields &f, bool *relativeBran
   int mode = (int)f.geti("mode");
   LedgerMM mm;
   bool useMm = f.geti("mm") != 0;
-  Intact intact{&ps.uri, &pb.uri, S, B, &intactErr};
+  Intact intact{&ps.uri, Bp, S, B, &intactErr};
   typename A::Uri d, t;
   memset(&d, 0xA5, sizeof d);
   int fault = useMm ? (int)f.geti("fault") : 0;
   if (fault > 0) mm.fail_at = (uint64_t)fault;
-  int rc = useMm ? A::RemoveBaseUriMm(&d, &ps.uri, &pb.uri, mode ? URI_TRUE : URI_FALSE, &mm.mm)
-                 : A::RemoveBaseUri(&d, &ps.uri, &pb.uri, mode ? URI_TRUE : URI_FALSE);
+  int rc = useMm ? A::RemoveBaseUriMm(&d, &ps.uri, Bp, mode ? URI_TRUE : URI_FALSE, &mm.mm)
+                 : A::RemoveBaseUri(&d, &ps.uri, Bp, mode ? URI_TRUE : URI_FALSE);
   struct Cl { typename A::Uri *u; UriMemoryManager *m; bool on; ~Cl() { if (on) A::FreeUriMembersMm(u, m); } };
   Cl cd{&d, useMm ? &mm.mm : nullptr, true};
   bool bit = mm.failed > 0;
@@ -114,7 +136,7 @@ template <class A> static Verdict check_type(const Fields &f, bool *relativeBran
   if (!wf.empty()) return fail("reference not well formed: " + wf);
   // the way back
   memset(&t, 0xA5, sizeof t);
-  int rc2 = A::AddBaseUri(&t, &d, &pb.uri);
+  int rc2 = A::AddBaseUri(&t, &d, Bp);
   Cl ct{&t, nullptr, true};
   if (rc2 != 0) return fail("resolving the reference against B fails with rc=" + std::to_string(rc2));
   Snap T = snapshot<A>(t);
@@ -163,6 +185,8 @@ static Verdict check(const Fields &f) {
   v = check_type<Api<wchar_t>>(f, &rel);
   if (v.kind != Verdict::PASS) return v;
   if (!intact_error().empty()) return Verdict::fail("W: S='" + esc(f.get("src")) + "' B='" + esc(f.get("base")) + "': " + intact_error());
+  if (f.geti("shared") == 1) stats().hit("B_is_a_prefix_view_of_S_buffer");
+  if (f.geti("shared") == 2) stats().hit("same_object_as_source_and_base");
   if (f.geti("sown")) stats().hit("S_owner_before_the_call");
   if (f.geti("bown")) stats().hit("B_owner_before_the_call");
   stats().hit("overlap_class=" + std::to_string(f.geti("klass")));
